@@ -76,6 +76,10 @@ type dbHarness struct {
 	iters   map[int]*iterObj
 	batches map[int]*batchObj
 
+	conc        *concState
+	debugLog    []string
+	evSeq       int
+	ingestSeq   uint64
 	nCkpt       int
 	fmvFloor    int // the version may never be observed below this ...
 	fmvFloorIdx int // ... in crash images at or after this disk index
@@ -291,6 +295,7 @@ func (h *dbHarness) listener() *pebble.EventListener {
 		ManifestCreated: func(pebble.ManifestCreateInfo) { h.count("ev.manifest_created", 1) },
 		TableIngested: func(info pebble.TableIngestInfo) {
 			h.count("ev.ingest", 1)
+			h.ingestSeq = uint64(info.GlobalSeqNum)
 		},
 		WALCreated: func(info pebble.WALCreateInfo) {
 			h.count("ev.wal_created", 1)
@@ -384,6 +389,11 @@ func (h *dbHarness) drive() {
 	h.db = db
 	if h.pendingCtx != nil {
 		h.checkRecovered()
+	}
+	if h.cfg.Clients > 1 {
+		h.driveConcurrent()
+		h.closeDB()
+		return
 	}
 	for h.pc < len(h.ops) {
 		op := &h.ops[h.pc]
